@@ -220,9 +220,12 @@ def combine(label, G, pkg, settings, sub):
     Returns (label, expr, number of comparisons, detailed (label, expr) list for a second pass)."""
     sel = next((s for s in reversed(settings) if s["version"] == pkg), None)
     al = f"allowlist {G} {coq.slist(sel['methods'])}" if sel is not None else "@Ok (list addr) []"
-    pre = f"let o := build {G} {coq.s(pkg)} {U.settings_term(settings)} in let al := {al} in "
-    expr = f"({pre}match failing {coq.lst('(' + e + ')' for _, e in sub)} with [] => true | _ => false end)"
-    return (label, expr, len(sub), [(l, f"({pre}{e})") for l, e in sub])
+    # a beta-redex, not a let: the body is type-checked with o and al abstract (a let lets unification unfold
+    # [build], which costs tens of seconds on large terms); vm_compute evaluates the arguments once
+    pre = "(fun (o : outcome) (al : res (list addr)) => "
+    post = f") (build {G} {coq.s(pkg)} {U.settings_term(settings)}) ({al})"
+    expr = f"({pre}match failing {coq.lst('(' + e + ')' for _, e in sub)} with [] => true | _ => false end{post})"
+    return (label, expr, len(sub), [(l, f"({pre}{e}{post})") for l, e in sub])
 
 
 def schema_checks(ctx, api, G, graph, it, obs, O, with_deps):
